@@ -16,10 +16,12 @@ VARIABLES
   hstart,   \* nodes whose handler has started, with the serial of that start
   qfSeen,   \* number of QF events seen
   endSeen,  \* CallEnd seen
+  hfail,    \* hfail[n]: status code with which node n's handler failed
+  downed,   \* nodes whose server the environment has stopped (or never started)
   cnt,      \* number of scenarios started so far
   bad       \* number of scenarios abandoned at an event that no action matches
 
-tvars == <<vars, l, hq, hstart, qfSeen, endSeen, cnt, bad>>
+tvars == <<vars, l, hq, hstart, qfSeen, endSeen, hfail, downed, cnt, bad>>
 
 Ev == Trace[l]
 Is(e) == l <= Len(Trace) /\ Trace[l].ev = e
@@ -37,13 +39,13 @@ ResetTo(s) ==
   /\ out' = [tag |-> "none"] /\ qfLog' = <<>>
   /\ corr' = [level |-> LevelNotSet, val |-> NoVal, err |-> "none", done |-> FALSE]
   /\ clevel' = LevelNotSet /\ confirmed' = {}
-  /\ hq' = [n \in 1..s.n |-> <<>>] /\ hstart' = <<>> /\ qfSeen' = 0 /\ endSeen' = FALSE
+  /\ hq' = [n \in 1..s.n |-> <<>>] /\ hstart' = <<>> /\ qfSeen' = 0 /\ endSeen' = FALSE /\ hfail' = <<>> /\ downed' = {}
 
 TInit ==
   /\ l = 1 /\ cnt = 0 /\ bad = 0
   /\ InitWith([method |-> "none", kind |-> "none", custom |-> FALSE, n |-> 0, pn |-> <<>>, qf |-> "thr",
-               k |-> 1, lv |-> "none", nsw |-> FALSE, vals |-> 0])
-  /\ hq = <<>> /\ hstart = <<>> /\ qfSeen = 0 /\ endSeen = FALSE
+               k |-> 1, lv |-> "none", nsw |-> FALSE, vals |-> 0, fk |-> ""])
+  /\ hq = <<>> /\ hstart = <<>> /\ qfSeen = 0 /\ endSeen = FALSE /\ hfail = <<>> /\ downed = {}
 
 \* a scenario is complete when its call returned and everything logged was consumed
 TScenario ==
@@ -51,7 +53,7 @@ TScenario ==
   /\ ResetTo(Ev.sc)
   /\ cnt' = cnt + 1 /\ UNCHANGED bad
 
-Same == UNCHANGED <<hq, hstart, qfSeen, endSeen, cnt, bad>>
+Same == UNCHANGED <<hq, hstart, qfSeen, endSeen, hfail, downed, cnt, bad>>
 
 TCallStart ==
   /\ Is("CallStart") /\ Step /\ Same
@@ -76,18 +78,19 @@ TCallIssued ==
 \* node, with exactly the payload the per-node function produced for it
 TagFor(n) == IF sc.pn[n] = "own" THEN n ELSE 0
 THStart ==
-  /\ Is("HStart") /\ Step /\ UNCHANGED <<vars, hq, qfSeen, endSeen, cnt, bad>>
+  /\ Is("HStart") /\ Step /\ UNCHANGED <<vars, hq, qfSeen, endSeen, hfail, downed, cnt, bad>>
   /\ Ev.node \in sent /\ Ev.node \notin DOMAIN hstart
   /\ Ev.tag = TagFor(Ev.node) /\ Ev.method = sc.method
   /\ hstart' = (Ev.node :> Ev.serial) @@ hstart
 
 THReply ==
-  /\ Is("HReply") /\ Step /\ UNCHANGED <<vars, hstart, qfSeen, endSeen, cnt, bad>>
+  /\ Is("HReply") /\ Step /\ UNCHANGED <<vars, hstart, qfSeen, endSeen, hfail, downed, cnt, bad>>
   /\ Ev.node \in DOMAIN hstart
   /\ hq' = [hq EXCEPT ![Ev.node] = Append(@, [err |-> FALSE, val |-> Ev.val])]
 
 THFail ==
-  /\ Is("HFail") /\ Step /\ UNCHANGED <<vars, hstart, qfSeen, endSeen, cnt, bad>>
+  /\ Is("HFail") /\ Step /\ UNCHANGED <<vars, hstart, qfSeen, endSeen, downed, cnt, bad>>
+  /\ hfail' = (Ev.node :> Ev.code) @@ hfail
   /\ Ev.node \in DOMAIN hstart
   /\ hq' = [hq EXCEPT ![Ev.node] = Append(@, [err |-> TRUE, val |-> 0])]
 
@@ -97,7 +100,7 @@ THEnd ==
 
 \* a response is handed to the call's reply channel (under the router mutex)
 TRoute ==
-  /\ Is("Route") /\ Step /\ UNCHANGED <<hstart, qfSeen, endSeen, cnt, bad>>
+  /\ Is("Route") /\ Step /\ UNCHANGED <<hstart, qfSeen, endSeen, hfail, downed, cnt, bad>>
   /\ LET n == Ev.node IN
      IF ~Ev.found
        THEN UNCHANGED <<vars, hq>>                       \* dropped: no router (late or one-way)
@@ -130,7 +133,7 @@ TCallConfirm ==
 \* C01: the quorum function was called for the reply just stored, with the
 \* original request, the reply set the spec holds, genuine stamps, one at a time
 TQF ==
-  /\ Is("QF") /\ Step /\ UNCHANGED <<vars, hq, hstart, endSeen, cnt, bad>>
+  /\ Is("QF") /\ Step /\ UNCHANGED <<vars, hq, hstart, endSeen, hfail, downed, cnt, bad>>
   /\ qfSeen' = qfSeen + 1 /\ qfSeen' = Len(qfLog) /\ Ev.idx = qfSeen'
   /\ Ev.reqok /\ Ev.overlap = 1
   /\ LET e == Last(qfLog) IN
@@ -152,7 +155,7 @@ TCallLoop ==
   /\ pc = "waiting" /\ qfSeen = Len(qfLog)
 
 TCallEnd ==
-  /\ Is("CallEnd") /\ Step /\ UNCHANGED <<hq, hstart, qfSeen, cnt, bad>>
+  /\ Is("CallEnd") /\ Step /\ UNCHANGED <<hq, hstart, qfSeen, hfail, downed, cnt, bad>>
   /\ ~endSeen /\ endSeen' = TRUE /\ qfSeen = Len(qfLog)
   /\ IF Ev.out = "ctx" THEN TakeCtx ELSE pc = "returned" /\ UNCHANGED vars
   /\ out'.tag = (IF Ev.out = "reply" /\ sc.kind = "rpc" THEN "reply" ELSE Ev.out)
@@ -161,6 +164,18 @@ TCallEnd ==
   /\ (IsCorr /\ Ev.out # "ok") => (corr'.level = Ev.level)
 
 TCtxEnd == Is("CtxEnd") /\ Step /\ Same /\ CtxEnd(Ev.cause)
+
+\* C07: the environment stops the server of a node
+TNodeDown == /\ Is("NodeDown") /\ Step /\ UNCHANGED <<vars, hq, hstart, qfSeen, endSeen, hfail, cnt, bad>>
+             /\ downed' = downed \cup {Ev.node}
+
+\* C07: every error of the call names its node; a handler failure carries the
+\* handler's status code and message, a connection failure does not (any
+\* transport error is accepted: the check demands no particular code)
+ErrDetailsOK(d) ==
+  \A i \in DOMAIN d :
+     LET n == d[i][1] IN
+       IF n \in DOMAIN hfail THEN d[i][2] = hfail[n] /\ d[i][3] ELSE ~d[i][3]
 
 \* what the generated stub handed back to the caller
 TStubRet ==
@@ -173,6 +188,7 @@ TStubRet ==
                  /\ Ev.resnil
                  /\ Ev.nerr = out.nerr /\ Ev.nrep = out.nrep
                  /\ Ev.errnodes = errs
+                 /\ ErrDetailsOK(Ev.errdetails)
                  /\ (out.tag = "ctx") => Ev.cause = out.cause
        [] sc.kind = "rpc" ->
             /\ pc = "returned" /\ endSeen /\ Ev.tag = (IF out.tag = "reply" THEN (IF out.err THEN "err" ELSE "ok") ELSE out.tag)
@@ -189,6 +205,7 @@ TObsAsync ==
        /\ (out.tag = "ok") => (Ev.qfidx = out.qf /\ Ev.restok = Ev.tok)
        /\ (out.tag # "ok") =>
             /\ Ev.resnil /\ Ev.nerr = out.nerr /\ Ev.nrep = out.nrep /\ Ev.errnodes = errs
+            /\ ErrDetailsOK(Ev.errdetails)
             /\ (out.tag = "ctx") => Ev.cause = out.cause
 
 \* observations of a correctable: raw Get, typed Get, Done, watchers
@@ -211,10 +228,12 @@ TQuiescent ==
   /\ ~ENABLED Internal
   /\ (pc = "returned") => endSeen
   /\ QuiescentOK
+  \* C07: a call is never left waiting for a node whose connection has failed
+  /\ (pc = "waiting") => \A n \in downed \cap sent : nprod[n] > 0
 
 TNormal == TCallStart \/ TCallSkip \/ TEnqBegin \/ TCallEnq \/ TCallIssued
          \/ THStart \/ THReply \/ THFail \/ THEnd \/ TRoute \/ TCallRecv \/ TCallConfirm
-         \/ TQF \/ TCorrPublish \/ TCallLoop \/ TCallEnd \/ TCtxEnd \/ TStubRet
+         \/ TQF \/ TCorrPublish \/ TCallLoop \/ TCallEnd \/ TCtxEnd \/ TNodeDown \/ TStubRet
          \/ TObsAsync \/ TObsCorr \/ TQuiescent
 
 \* An event that no action matches: the scenario is reported (the checker reads
@@ -227,7 +246,7 @@ TBad ==
   /\ l <= Len(Trace) /\ ~Is("Scenario") /\ ~ENABLED TNormal
   /\ PrintT(<<"BAD", l, Trace[l].t, Trace[l].ev>>)
   /\ l' = NextScenario(l) /\ bad' = bad + 1
-  /\ UNCHANGED <<vars, hq, hstart, qfSeen, endSeen, cnt>>
+  /\ UNCHANGED <<vars, hq, hstart, qfSeen, endSeen, hfail, downed, cnt>>
 
 TNext == TScenario \/ TNormal \/ TBad
 TSpec == TInit /\ [][TNext]_tvars
